@@ -168,10 +168,17 @@ class Weaver:
             # NOT verified in this run: it is kept under its contract only, so that its callers and every property whose
             # chain does not contain it can still be decided; properties that list it become inconclusive (check.py).
             lost = str(e)
-            body = self._normalise(raw, 'fn', trait_impl=trait_impl)
+            # signature-level normalisations (N6 `&dyn Fn` -> `&impl Fn`, N8 path fixes in where-clauses) must still be applied,
+            # otherwise the callers of the function no longer type-check against it; body-level rewrites are skipped
+            sig_src = self._drop_body(raw, q)
+            for rw in rewrites:
+                try:
+                    sig_src = self._apply_rewrites(sig_src, [(rw[0], rw[1], rw[2], '*')], q)
+                except LostAnchor:
+                    pass
+            body = self._normalise(sig_src, 'fn', trait_impl=trait_impl)
             if vis is not None:
                 body = re.sub(r'^pub\s+', '', body) if vis == '' else body
-            body = self._drop_body(body, q)
             body = self._weave_fn(body, q, ret, requires, ensures, {}, (), (), '', False, decreases, ensures_raw, no_unwind)
             self.report.setdefault('lost', []).append({'fn': q, 'props': list(props), 'reason': lost})
         for a in attrs:
